@@ -235,10 +235,10 @@ def explore(run, *, max_paths=4000, ctx_kwargs=None, on_path=None):
                 p = Path(ctx, "limit", e)
             except Exception as e:  # exception raised by the code under test
                 p = Path(ctx, "exc", e)
+            if on_path is not None:
+                on_path(p)          # may fork further (real code called by the harness on the result)
             for i in range(len(prefix), len(ctx.taken)):
                 work.append(ctx.taken[:i] + [not ctx.taken[i]])
-            if on_path is not None:
-                on_path(p)
         paths.append(p)
     return paths
 
